@@ -353,6 +353,31 @@ def run(tier, seed, replay):
             f = r["flags"][-1]
             flag_expect.append((rp, [bool(f[k]) if k else False for k in FL]))
 
+    # ---- the byte stream of one crate's output is the same in every run (the order in which the files of a module
+    # tree reach stdout included): 8-file tree x ordered-stream modes x 6 repetitions in fresh processes
+    rd = os.path.join(base, "repeat")
+    os.makedirs(os.path.join(rd, "a"))
+    names = ["alpha", "beta", "gamma", "delta", "epsilon", "zeta"]
+    with open(os.path.join(rd, "lib.rs"), "w") as f:
+        f.write("".join("mod %s;\n" % n for n in names) + "mod a;\nfn  r( ){}\n")
+    for n in names:
+        with open(os.path.join(rd, n + ".rs"), "w") as f:
+            f.write("pub fn  %s( ){let x=1;}\n" % n)
+    with open(os.path.join(rd, "a", "mod.rs"), "w") as f:
+        f.write("pub fn  a( ){}\n")
+    rep_runs = 0
+    for mname, margs in (("stdout", ["--emit", "stdout"]), ("check", ["--check"]), ("json", ["--emit", "json"]), ("checkstyle", ["--emit", "checkstyle"]),
+                         ("check_l", ["--check", "-l"]), ("verbose", ["--check", "-v"])):
+        outs = []
+        for _ in range(6):
+            rc, o, e = run_rf(exe, margs + ["lib.rs"], rd, env_for("plain"))
+            outs.append((rc, ANSI.sub("", o)))
+            rep_runs += 1
+        if len(set(outs)) != 1:
+            k = next(i for i, x in enumerate(outs) if x != outs[0])
+            viol("repeated_runs_differ", {"mode": mname, "args": margs + ["lib.rs"], "run0": outs[0][1][-1500:], "run%d" % k: outs[k][1][-1500:]},
+                 "`rustfmt %s lib.rs` on the same 8-file crate printed different byte streams in runs 0 and %d" % (" ".join(margs), k))
+
     # ---- model evaluation
     model = None
     disagreements = []
@@ -402,7 +427,7 @@ def run(tier, seed, replay):
         "evaluations": len(jobs) + stdin_n + 2 + len(vh_cases),
         "distinct_nontrivial": len(nontrivial),
         "exhaustive": True,
-        "rule": "%d sets of 1..4 inputs from {formatted, unformatted, not parsable (unclosed delimiter; unterminated string), two different local rustfmt.toml, module tree of 2 files, missing path, malformed local rustfmt.toml}; per set and mode {files, --check, --emit stdout}: every input alone, EVERY order (<= 24), the identity order from another working directory with absolute paths, with a scrambled environment (other HOME, TERM unset, RUSTFMT_LOG, LANG, LC_ALL, TZ, COLUMNS, NO_COLOR), on a second fresh copy, with the first input named twice; files mode twice in a row on the same tree; 6 inputs by path and on standard input; make_backup in a discovered rustfmt.toml; in-process: one Session over every order of %d texts (two with override_config) x {stdout, json, checkstyle}. Compared: bytes of every file / printed text per file / set of reported files, stderr lines as multisets, exit status = max of the single statuses" % (len(sets), len(texts)),
+        "rule": "%d sets of 1..4 inputs from {formatted, unformatted, not parsable (unclosed delimiter; unterminated string), two different local rustfmt.toml, module tree of 2 files, missing path, malformed local rustfmt.toml}; per set and mode {files, --check, --emit stdout}: every input alone, EVERY order (<= 24), the identity order from another working directory with absolute paths, with a scrambled environment (other HOME, TERM unset, RUSTFMT_LOG, LANG, LC_ALL, TZ, COLUMNS, NO_COLOR), on a second fresh copy, with the first input named twice; files mode twice in a row on the same tree; 6 inputs by path and on standard input; make_backup in a discovered rustfmt.toml; in-process: one Session over every order of %d texts (two with override_config) x {stdout, json, checkstyle}. an 8-file crate x {stdout, check, json, checkstyle, -l, -v} x 6 fresh processes (byte streams must be equal). Compared: bytes of every file / printed text per file / set of reported files, stderr lines as multisets, exit status = max of the single statuses" % (len(sets), len(texts)),
         "samples": jobs[:2] + jobs[len(jobs) // 2:len(jobs) // 2 + 2] + jobs[-1:],
         "correspondence_disagreements": len(disagreements),
         "traces_validated_against_impl": validated,
